@@ -337,7 +337,7 @@ package state
 
 // ---------------------------------------------------------------------------------------------------------------
 // NewValidator: every field from its argument, six fresh and pairwise distinct amounts, an empty fresh delegation list.
-//@ func NewValidator props C08
+//@ func NewValidator props C08, C10
 //@ panics none
 //@ requires token != nil && stake != nil
 //@ modifies nothing
